@@ -153,6 +153,15 @@ func (b *BFT) CheckProposerMessage(x *Message, p *validateMessageParams) (isPart
 		if p.blockHash == nil || p.resultsHash == nil {
 			return false, lib.ErrNoSavedBlockOrResults()
 		}
+		// the justification must be the +2/3 certificate of THIS round's vote phase: an older certificate of
+		// the same block replayed under a new header would make replicas lock (and commit) below the round they vote in
+		wantPhase := ProposeVote
+		if x.Header.Phase == Commit {
+			wantPhase = PrecommitVote
+		}
+		if x.Qc.Header.Phase != wantPhase || x.Qc.Header.Round != x.Header.Round || x.Qc.Header.Height != x.Header.Height {
+			return false, lib.ErrWrongPhase()
+		}
 		// PROPOSE-VOTE and PRECOMMIT-VOTE Replica message
 		if !bytes.Equal(x.Qc.BlockHash, p.blockHash) {
 			return false, lib.ErrMismatchConsBlockHash()
